@@ -85,6 +85,7 @@ fn dispatch(st: &mut State, line: &str) -> String {
         "edsign" => crypto::cmd_edsign(rest),
         "edpk" => crypto::cmd_edpk(rest),
         "edverify" => crypto::cmd_edverify(rest),
+        "edpoint" => crypto::cmd_edpoint(rest),
         "sha512" => crypto::cmd_sha512(rest),
         "envelope" => misc::cmd_envelope(rest),
         "envdec" => misc::cmd_envdec(rest),
